@@ -366,6 +366,53 @@ def check_object_from_file_contract():
 
 
 # ------------------------------------------------------------------ _STIXBase.__init__: the raw-input prefix (region contract, cut at the property loop)
+def extension_scan_replay():
+    """native side of the __init__ region contract: a history of constructions over every order of registered / unregistered toplevel-property-extension
+    entries and other entries, with extra top-level properties; each case is judged by the rule of the statement, independently of what ran before"""
+    from vf.check import Replay
+    T1, T2 = 'extension-definition--0a7e1a1a-4c2b-4d6e-8f10-1b2c3d4e5f60', 'extension-definition--1b8f2b2b-5d3c-4e7f-9a21-2c3d4e5f6071'
+    U1, U2 = 'extension-definition--2c9a3c3c-6e4d-4f80-ab32-3d4e5f607182', 'extension-definition--3dab4d4d-7f5e-4091-bc43-4e5f60718293'
+
+    def setup():
+        import stix2
+        from stix2 import registry
+        from stix2.properties import StringProperty
+        for t, pn in ((T1, 'x_top1'), (T2, 'x_top2')):
+            if t not in registry.STIX2_OBJ_MAPS['2.1']['extensions']:
+                stix2.v21.CustomExtension(t, [(pn, StringProperty())])(type('_VfTop_' + pn, (object,), {'extension_type': 'toplevel-property-extension'}))
+
+    def search():
+        import itertools, stix2
+        setup()
+        entries = {'t1': (T1, {'extension_type': 'toplevel-property-extension'}, {'x_top1'}), 't2': (T2, {'extension_type': 'toplevel-property-extension'}, {'x_top2'}),
+                   'u': (U1, {'extension_type': 'toplevel-property-extension'}, None), 'pe': (U2, {'extension_type': 'property-extension', 'a': 1}, set())}
+        combos = [c for n in (3, 2, 1) for c in itertools.permutations(entries, n)]          # the longest first: whatever a scan leaves behind is seen by the shorter ones
+        extras_sets = [(), ('x_top1',), ('x_top2',), ('x_free',), ('x_top1', 'x_top2'), ('x_top1', 'x_free'), ('x_top2', 'x_free')]
+        for cname, base in (('Identity', {'name': 'n'}), ('File', {'name': 'f'})):
+            for combo in combos:
+                for extras in extras_sets:
+                    declared = set().union(*[entries[e][2] for e in combo if entries[e][2] is not None])
+                    ok = 'u' in combo or set(extras) <= declared
+                    yield {'cls': cname, 'kwargs': dict(base, extensions={entries[e][0]: dict(entries[e][1]) for e in combo}, **{x: 'v' for x in extras}), 'allow_custom': False,
+                           '_combo': combo, '_extras': extras, '_ok': ok}
+
+    def call(py):
+        import stix2, copy as _c
+        return getattr(stix2.v21, py['cls'])(allow_custom=py['allow_custom'], **_c.deepcopy(py['kwargs']))
+
+    def judge(py, outcome, ob):
+        kind, val = outcome
+        what = f"{py['cls']} with extension entries {list(py['_combo'])} (t = registered toplevel-property-extension, u = unregistered one, pe = unregistered property-extension) and extra properties {list(py['_extras'])}, strict"
+        if py['_ok']:
+            if kind == 'raise': return [f'{what}: refused although every extra property is declared by a registered toplevel-property-extension entry or an unregistered one is present: {type(val).__name__}: {str(val)[:120]}']
+            if getattr(val, 'has_custom', False): return [f'{what}: accepted but flagged as custom']
+            return []
+        if kind == 'return': return [f'{what}: accepted although a property is declared neither by the type nor by a toplevel-property-extension entry of this object']
+        return [] if type(val).__name__ in ('ExtraPropertiesError', 'InvalidValueError', 'CustomContentError') else [f'{what}: raised {type(val).__name__}: {val}']
+    rp = Replay(call=call, judge=judge); rp.search = search
+    return rp
+
+
 def init_prefix_contract():
     """everything __init__ does with the raw keyword arguments BEFORE property cleaning: custom_properties, the extensions scan,
     custom-property naming.  kwargs is an arbitrary JSON dictionary (any values, any key strings)."""
@@ -497,7 +544,7 @@ def init_prefix_contract():
     def isinst(b):
         def h(x, v, p, site): yield p, Bool(b)
         return h
-    return Contract('stix2/base.py::_STIXBase.__init__', props=['C17', 'C04'],
+    return Contract('stix2/base.py::_STIXBase.__init__', props=['C17', 'C04', 'C02', 'C03', 'C19'], replay=extension_scan_replay(),
                     params={'self': Val('stixself', x='self'), 'allow_custom': 'bool', 'interoperability': 'bool', 'kwargs': JV(kw)},
                     requires=[('keyword arguments form a dictionary (they come from **stix_dict)', lambda a: tag(kw) == TAG['dict'])],
                     raises=dict(FAMILY), ignore_unknown_exceptions=True, on_outcomes=outcomes,
